@@ -180,6 +180,7 @@ class Sim:
         self.conn_calls = collections.OrderedDict()   # cid -> (db, fut)
         self.disc_calls = collections.OrderedDict()   # did -> (conn, fut)
         self.fut_cid = {}        # id(fut) -> cid    (kept for ready-queue labelling)
+        self.cid_db = {}
         self.fut_did = {}
         self.keep = []           # keep futures alive (ids stay unique)
         self.tasks = collections.OrderedDict()        # t -> (kind, db, task)
@@ -204,6 +205,7 @@ class Sim:
         self.n_cid += 1
         f = self.loop.create_future()
         self.conn_calls[self.n_cid] = (db, f)
+        self.cid_db[self.n_cid] = db
         self.fut_cid[id(f)] = self.n_cid
         self.keep.append(f)
         self.outs.append(f'conn{self.n_cid}:{db}')
@@ -235,51 +237,54 @@ class Sim:
         return None, None
 
     def _ready_labels(self):
+        return [self._label(h) for h in self.loop._ready]
+
+    def _label(self, h):
         out = []
-        for h in self.loop._ready:
-            if h._cancelled:
-                out.append('cancelled')
-                continue
-            cb = h._callback
-            owner = getattr(cb, '__self__', None)
-            if isinstance(owner, asyncio.Task):
-                kind, t = self._task_label(owner)
-                if type(cb).__name__ == 'TaskStepMethWrapper' or not h._args:
-                    qn = owner.get_coro().__qualname__
-                    fr = owner.get_coro().cr_frame
-                    loc = fr.f_locals if fr is not None else {}
-                    if kind == 'A':
-                        out.append(f'As{t}')
-                    elif kind == 'P':
-                        out.append(f'Ps{t}')
-                    elif qn.endswith('._connect'):
-                        out.append(f'Cs{loc["block"].dbname}')
-                    elif qn.endswith('._transfer'):
-                        out.append(f'Ts{loc["from_conn"].id}')
-                    elif qn.endswith('._discard_conn'):
-                        out.append(f'Ds{loc["conn"].id}')
-                    else:
-                        out.append('S?' + qn)
-                else:
-                    fut = h._args[0]
-                    if id(fut) in self.fut_cid:
-                        out.append(f'Cw{self.fut_cid[id(fut)]}')
-                    elif id(fut) in self.fut_did:
-                        out.append(f'Dw{self.fut_did[id(fut)]}')
-                    elif kind == 'A':
-                        out.append(f'Aw{t}' + ('-' if fut.exception() is not None else '+'))
-                    elif kind == 'P':
-                        if isinstance(fut, asyncio.Future) and type(fut).__name__ == '_GatheringFuture':
-                            out.append(f'Pf{t}')
+        for h in (h,):
+                if h._cancelled:
+                    out.append('cancelled')
+                    continue
+                cb = h._callback
+                owner = getattr(cb, '__self__', None)
+                if isinstance(owner, asyncio.Task):
+                    kind, t = self._task_label(owner)
+                    if type(cb).__name__ == 'TaskStepMethWrapper' or not h._args:
+                        qn = owner.get_coro().__qualname__
+                        fr = owner.get_coro().cr_frame
+                        loc = fr.f_locals if fr is not None else {}
+                        if kind == 'A':
+                            out.append(f'As{t}')
+                        elif kind == 'P':
+                            out.append(f'Ps{t}')
+                        elif qn.endswith('._connect'):
+                            out.append(f'Cs{loc["block"].dbname}')
+                        elif qn.endswith('._transfer'):
+                            out.append(f'Ts{loc["from_conn"].id}')
+                        elif qn.endswith('._discard_conn'):
+                            out.append(f'Ds{loc["conn"].id}')
                         else:
-                            out.append(f'Pw{t}' + ('-' if fut.exception() is not None else '+'))
+                            out.append('S?' + qn)
                     else:
-                        out.append('W?')
-            elif getattr(cb, '__name__', '') == '_done_callback':
-                out.append('Gc')
-            else:
-                out.append('?' + repr(cb)[:40])
-        return out
+                        fut = h._args[0]
+                        if id(fut) in self.fut_cid:
+                            out.append(f'Cw{self.fut_cid[id(fut)]}')
+                        elif id(fut) in self.fut_did:
+                            out.append(f'Dw{self.fut_did[id(fut)]}')
+                        elif kind == 'A':
+                            out.append(f'Aw{t}' + ('-' if fut.exception() is not None else '+'))
+                        elif kind == 'P':
+                            if isinstance(fut, asyncio.Future) and type(fut).__name__ == '_GatheringFuture':
+                                out.append(f'Pf{t}')
+                            else:
+                                out.append(f'Pw{t}' + ('-' if fut.exception() is not None else '+'))
+                        else:
+                            out.append('W?')
+                elif getattr(cb, '__name__', '') == '_done_callback':
+                    out.append('Gc')
+                else:
+                    out.append('?' + repr(cb)[:40])
+        return out[0]
 
     def _waiter_ids(self, block):
         res = []
@@ -412,12 +417,27 @@ class Sim:
             return False
         rec = self._recent()
         h = self.loop._ready.popleft()
+        lab = self._label(h)
+        failed_connect = None
+        if lab.startswith('Cw') and h._args and h._args[0].exception() is not None:
+            failed_connect = self.cid_db.get(int(lab[2:]))
         if not h._cancelled:
             self.loop.enter()
             try:
                 h._run()
             finally:
                 self.loop.leave()
+        if failed_connect is not None:
+            # C16, second clause: a connect failure that exhausts its retries is reported to the
+            # waiting requests instead of leaving them blocked
+            b = self.pool._blocks.get(failed_connect)
+            if b is not None and b.connect_failures_num > pcfg.CONNECT_FAILURE_RETRIES and len(b.conn_waiters) > 0:
+                self.mon.append(('L2', f'connect failure #{b.connect_failures_num} on {failed_connect} exhausted the '
+                                       f'retries but {len(b.conn_waiters)} request(s) stay blocked in acquire()'))
+            elif b is not None and b.connect_failures_num <= pcfg.CONNECT_FAILURE_RETRIES and b.pending_conns == 0 \
+                    and len(b.conn_waiters) > 0 and not b.conns:
+                self.mon.append(('L2', f'connect failure #{b.connect_failures_num} on {failed_connect}: no retry '
+                                       f'scheduled and {len(b.conn_waiters)} request(s) stay blocked'))
         self._harvest()
         self.emit('X' + self._orc(recent=rec))
         return True
@@ -703,7 +723,7 @@ def _alarm(signum, frame):
     raise Runaway('an atomic section of the pool did not return within the time limit')
 
 
-CASE_SECONDS = float(os.environ.get('C15_CASE_SECONDS', '8'))
+CASE_SECONDS = float(os.environ.get('C15_CASE_SECONDS', '5'))
 MAX_EVENTS = 20000
 
 
@@ -715,7 +735,7 @@ def run_case(line):
     # spend minutes when (almost) every case of this process runs away
     global N_RUNAWAY
     import signal
-    if N_RUNAWAY >= 12:
+    if N_RUNAWAY >= 8:
         return {'trace': '', 'dig': [], 'mon': [], 'skipped': 'too many runaway cases in this process'}
     ALARMED[0] = None
     signal.signal(signal.SIGALRM, _alarm)
@@ -726,6 +746,8 @@ def run_case(line):
         signal.setitimer(signal.ITIMER_REAL, 0)
     if r.get('runaway'):
         N_RUNAWAY += 1
+        import gc
+        gc.collect()
     return r
 
 
@@ -746,6 +768,9 @@ def _run_case(line):
         import traceback
         res['runaway'] = str(e) + ' :: ' + ' <- '.join(
             f.name for f in traceback.extract_tb(e.__traceback__)[-6:])
+        nsched = len(sim.trace)
+    except MemoryError as e:
+        res['runaway'] = 'an atomic section of the pool allocated without bound (MemoryError under the 3 GB limit)'
         nsched = len(sim.trace)
     except Exception as e:  # harness failure: reported, never silently dropped
         import traceback
@@ -769,7 +794,7 @@ def _run_case(line):
 def main():
     try:
         import resource
-        resource.setrlimit(resource.RLIMIT_AS, (6 << 30, 6 << 30))
+        resource.setrlimit(resource.RLIMIT_AS, (3 << 30, 3 << 30))
     except Exception:
         pass
     for line in sys.stdin:
